@@ -259,6 +259,14 @@ def syncer_family(run, prefixes):
         hist = [ev("advance", "", 4), ev("tailFail", "", rnd.randint(3, n_)), ev("headStart", "", 0), ev("headRelease", "fresh", n_)] + \
                [ev("serve", "ok", 64) for _ in range(5)]
         frees.append({"k": "SYNC", "n": n_, "hist": hist, "nodrift": True, "from_tlc": False})
+    # (e) a chain whose clock runs ahead: a head dated within the allowed drift is accepted, the next ones (dated beyond the
+    #     drift of the local clock, though close to the accepted one) are refused as future-dated
+    for _ in range(8 if quick else 100):
+        n_ = rnd.randint(6, 12)
+        k = rnd.randint(2, n_ - 2)
+        hist = [ev("gossip", "valid", k)] + [ev("serve", "ok", 64) for _ in range(3)] + \
+               [ev("gossip", "ahead", k + 1), ev("gossip", "ahead", k + 2)] + [ev("serve", "ok", 64) for _ in range(2)]
+        frees.append({"k": "SYNC", "n": n_, "hist": hist, "free": True, "from_tlc": False, "aheadFrom": k})
     cases = cases + frees
     for i, c in enumerate(cases):
         c["id"] = i
